@@ -1,6 +1,6 @@
 (* C13 -- character-encoding fidelity (partial).  Only statements, `exact` proofs and Print Assumptions. *)
 From LolModel Require Import Base TextDecoder.
-From LolProofs Require Import TextDecoderProof.
+From LolProofs Require Import TextDecoderProof Utf8Decoder.
 From Coq Require Import List.
 Import ListNotations.
 Open Scope nat_scope.
@@ -12,19 +12,32 @@ Open Scope nat_scope.
    (malformed sequences as the decoder's U+FFFD, an incomplete tail resolved at the end of the node), the chunk ranges
    tile the node exactly (C14's text clause), and exactly the final chunk is flagged last_in_text_node. *)
 Theorem C13_text_chunks_are_the_whole_buffer_decode :
-  forall (dstate : Type) (dnew : dstate) ddecode valid_up_to Wpart Wfin pend,
-  @decoder_laws dstate dnew ddecode valid_up_to Wpart Wfin pend ->
+  forall (dstate A : Type) (dnew : dstate) ddecode valid_up_to (a0 : A) run fin abs,
+  @decoder_laws dstate A dnew ddecode valid_up_to a0 run fin abs ->
   forall start p pieces,
   let cs := text_node dstate dnew ddecode valid_up_to (p :: pieces) start in
-  texts cs = W Wpart Wfin (concat (p :: pieces))
+  texts cs = W A a0 run fin (concat (p :: pieces))
   /\ tiles cs start (start + length (concat (p :: pieces)))
   /\ exists body final, cs = body ++ [final] /\ none_last body /\ tc_last final = true.
 Proof. exact (@text_node_correct). Qed.
 
-(* the premise is satisfiable (identity codec on ASCII) ... *)
+(* the contract is satisfiable by the trivial codec ... *)
 Example C13_laws_are_satisfiable :
-  @decoder_laws unit tt (fun _ inp _ _ => (true, length inp, inp, tt)) (fun raw => length raw) (fun x => (x, [])) (fun _ => []) (fun _ => []).
+  @decoder_laws unit unit tt (fun _ inp _ _ => (true, length inp, inp, tt)) (fun raw => length raw) tt (fun _ x => (x, tt)) (fun _ => []) (fun _ => tt).
 Proof. exact identity_decoder_laws. Qed.
+(* ... and by the executable UTF-8 decoder of the model (a byte-at-a-time transducer with U+FFFD for every malformed or
+   truncated sequence, bounded output buffer): so for UTF-8 the statement is unconditional -- every split of a text node,
+   at any byte, decodes to the whole-buffer decode u8_whole of its bytes *)
+Theorem C13_utf8_decoder_meets_the_contract :
+  @decoder_laws u8state u8state [] u8_decode u8_valid_up_to [] u8_run u8_fin (fun s => s).
+Proof. exact utf8_decoder_laws. Qed.
+Theorem C13_utf8_any_split_equals_whole_decode :
+  forall start p pieces,
+  let cs := utf8_text_node (p :: pieces) start in
+  texts cs = u8_whole (concat (p :: pieces))
+  /\ tiles cs start (start + length (concat (p :: pieces)))
+  /\ exists body final, cs = body ++ [final] /\ none_last body /\ tc_last final = true.
+Proof. exact utf8_text_node_any_split_equals_whole_decode. Qed.
 (* ... and the executable UTF-8 instance used in the correspondence run decodes a character split over three writes,
    a malformed byte and a truncated tail as the whole-buffer decoder does, with tiling ranges *)
 Example C13_utf8_instance_example :
@@ -33,3 +46,4 @@ Example C13_utf8_instance_example :
 Proof. vm_compute. reflexivity. Qed.
 
 Print Assumptions C13_text_chunks_are_the_whole_buffer_decode.
+Print Assumptions C13_utf8_any_split_equals_whole_decode.
